@@ -3,20 +3,22 @@ import JunoModel.C15.Model
 /-!
 Line-protocol driver for the C15 model (`lake build c15drv`).
 
-  cfg a b c d      choose the db/memory variant (nilUbFix lowerBoundFix prevFix nextClamp), reset
+  cfg a            choose the db/memory variant (cbUnlocked), reset
   reset            fresh worlds
   ub P | hasprefix K P
   <op>             one storage operation (see harness/cmd/c15/ops.go); answer:
-                   `<mem model output> | <spec output> | <1 if the step is inside the contract else 0>`
+                   `<Mem model> | <Peb model> | <Spec> | <d><m><f>` with d = step is inside the documented
+                   contract, m = db/memory not on its re-entrancy defect, f = `f5Free` after the step
 -/
 open Juno.Proto Juno.C15
 
 structure St where
-  cfg : Cfg
+  cfg : MemCfg
   mem : World MBatch MIter
+  peb : World PBatch PIter
   spec : World SBatch SIter
 
-def St.init (cfg : Cfg) : St := ⟨cfg, World.init, World.init⟩
+def St.init (cfg : MemCfg) : St := ⟨cfg, World.init, World.init, World.init⟩
 
 def showKV (x : Key × Val) : String := bytesToHex x.1 ++ "=" ++ bytesToHex x.2
 
@@ -33,6 +35,9 @@ def showR : ROut → String
   | .vnil => "nil"
   | .errInvalid => "err:invalid"
   | .badOp => "bad-op"
+  | .errNotIndexed => "err:not-indexed"
+  | .hang => "hang"
+  | .key k => "key:" ++ bytesToHex k
 
 def showOut : Out → String
   | .r x => showR x
@@ -74,6 +79,10 @@ def op? : List String → Option Op
   | ["has", s, k] => do pure (.has (← src? s) (← hexToBytes? k))
   | ["iter", s, p, u] => do pure (.iter (← src? s) (← hexToBytes? p) (← bool? u))
   | ["scan", s, p, u] => do pure (.scan (← src? s) (← hexToBytes? p) (← bool? u))
+  | ["rscan", s, p, u, t] => do pure (.rscan (← src? s) (← hexToBytes? p) (← bool? u) (← hexToBytes? t))
+  | ["getw", s, k, k2, v2] => do pure (.getw (← src? s) (← hexToBytes? k) (← hexToBytes? k2) (← hexToBytes? v2))
+  | ["key", i] => do pure (.key (← i.toNat?))
+  | ["reopen"] => some .reopen
   | ["newbatch", i] => do pure (.newBatch (← bool? i))
   | ["bput", b, k, v] => do pure (.bput (← b.toNat?) (← hexToBytes? k) (← hexToBytes? v))
   | ["bdel", b, k] => do pure (.bdel (← b.toNat?) (← hexToBytes? k))
@@ -104,18 +113,22 @@ def stepLine (s : St) (line : String) : St × String :=
     | some k, some p => (s, toString (hasPrefix k p))
     | _, _ => (s, "bad-op")
   | ["reset"] => (St.init s.cfg, "ok")
-  | ["cfg", a, b, c, d] =>
-    match bool? a, bool? b, bool? c, bool? d with
-    | some a, some b, some c, some d => (St.init ⟨a, b, c, d⟩, "ok")
-    | _, _, _, _ => (s, "bad-op")
+  | ["cfg", a] =>
+    match bool? a with
+    | some a => (St.init ⟨a⟩, "ok")
+    | none => (s, "bad-op")
   | ws =>
     match op? ws with
     | none => (s, "bad-op")
     | some op =>
-      let okc := stepOK s.cfg s.spec op
+      let d := documented s.spec op
+      let m := memOK s.cfg op
       let rm := step (memImpl s.cfg) s.mem op
+      let rp := step pebImpl s.peb op
       let rs := step specImpl s.spec op
-      ({ s with mem := rm.1, spec := rs.1 },
-        showOut rm.2 ++ " | " ++ showOut rs.2 ++ " | " ++ (if okc then "1" else "0"))
+      let f := f5Free rs.1
+      let b := fun (x : Bool) => if x then "1" else "0"
+      ({ s with mem := rm.1, peb := rp.1, spec := rs.1 },
+        showOut rm.2 ++ " | " ++ showOut rp.2 ++ " | " ++ showOut rs.2 ++ " | " ++ b d ++ b m ++ b f)
 
-def main : IO Unit := loop stepLine (St.init Cfg.asFound)
+def main : IO Unit := loop stepLine (St.init ⟨false⟩)
